@@ -111,12 +111,18 @@ type rendered struct {
 }
 
 func realRender(name string, c []byte, p int) (out rendered) {
+	e := jerr.NewDocumentError(fs.NewFile(name, c), jerr.ErrEmptySchema)
+	return renderAt(&e, p)
+}
+
+// renderAt moves the error value to position p and renders it (the value may have been rendered before at
+// another position: the property speaks about the position it has now).
+func renderAt(e *jerr.DocumentError, p int) (out rendered) {
 	defer func() {
 		if r := recover(); r != nil {
 			out.panics = fmt.Sprintf("PANIC %v", r)
 		}
 	}()
-	e := jerr.NewDocumentError(fs.NewFile(name, c), jerr.ErrEmptySchema)
 	e.SetIndex(jbytes.Index(p))
 	out.msg = e.Error()
 	out.line = e.Line()
@@ -124,34 +130,59 @@ func realRender(name string, c []byte, p int) (out rendered) {
 	return out
 }
 
+const renderFileName = "file.jst"
+
 func checkRender(rep *vh.Report, c []byte, p int) {
-	const name = "file.jst"
+	got := realRender(renderFileName, c, p)
+	checkRendered(rep, c, p, got, func() string {
+		return fmt.Sprintf("content=%q position=%d (NewDocumentError(fs.NewFile(%q, content), ErrEmptySchema); SetIndex(position); Error())", c, p, renderFileName)
+	})
+}
+
+// checkRenderWalk: ONE error value rendered at every position of the list in turn (SetIndex, Error, Line,
+// SourceSubString, next position …); after each move the rendering must be that of the new position.
+func checkRenderWalk(rep *vh.Report, c []byte, positions []int) {
+	e := jerr.NewDocumentError(fs.NewFile(renderFileName, c), jerr.ErrEmptySchema)
+	for k, p := range positions {
+		got := renderAt(&e, p)
+		in := func() string {
+			return fmt.Sprintf("content=%q; ONE value e := NewDocumentError(fs.NewFile(%q, content), ErrEmptySchema) rendered (SetIndex(p); Error(); Line(); SourceSubString()) at the positions %v in turn; observed at the last one", c, renderFileName, positions[:k+1])
+		}
+		if !checkRendered(rep, c, p, got, in) {
+			return // later renderings inherit whatever went wrong
+		}
+	}
+	rep.Stat("render_walks")
+}
+
+func checkRendered(rep *vh.Report, c []byte, p int, got rendered, inf func() string) (good bool) {
+	const name = renderFileName
 	st := classify(c)
-	got := realRender(name, c, p)
-	in := fmt.Sprintf("content=%q position=%d (NewDocumentError(fs.NewFile(%q, content), ErrEmptySchema); SetIndex(position); Error())", c, p, name)
 	if got.panics != "" {
-		rep.AddDiff(vh.Diff{Component: "C17-render", Input: in, Impl: got.panics, Model: "rendering never panics"})
-		return
+		rep.AddDiff(vh.Diff{Component: "C17-render", Input: inf(), Impl: got.panics, Model: "rendering never panics"})
+		return false
 	}
 	if st == styleMixed {
 		rep.Stat("render_mixed_nopanic")
-		return
+		return true
 	}
 	num, src, caret, ok := refRender(c, p, st)
 	head := fmt.Sprintf("\n\tin line %d on file %s\n\t> ", num, name)
 	if int(got.line) != num || !strings.Contains(got.msg, head) {
-		rep.AddDiff(vh.Diff{Component: "C17-render", Input: in, Impl: fmt.Sprintf("Line()=%d message=%q", got.line, got.msg), Model: fmt.Sprintf("line %d", num)})
-		return
+		rep.AddDiff(vh.Diff{Component: "C17-render", Input: inf(), Impl: fmt.Sprintf("Line()=%d message=%q", got.line, got.msg), Model: fmt.Sprintf("line %d", num)})
+		return false
 	}
 	if !ok {
 		rep.Stat("render_blank_line")
-		return
+		return true
 	}
 	rep.Stat("render_full")
 	want := head + src + "\n\t--" + caret
 	if !strings.HasSuffix(got.msg, want) || !strings.HasPrefix(got.msg, "ERROR") || got.src != src {
-		rep.AddDiff(vh.Diff{Component: "C17-render", Input: in, Impl: fmt.Sprintf("SourceSubString()=%q message=%q", got.src, got.msg), Model: fmt.Sprintf("message ends with %q", want)})
+		rep.AddDiff(vh.Diff{Component: "C17-render", Input: inf(), Impl: fmt.Sprintf("SourceSubString()=%q message=%q", got.src, got.msg), Model: fmt.Sprintf("message ends with %q", want)})
+		return false
 	}
+	return true
 }
 
 func runRender(rep *vh.Report) {
@@ -162,8 +193,14 @@ func runRender(rep *vh.Report) {
 			return
 		}
 		c := append([]byte(nil), b...)
+		fwd, bwd := make([]int, len(c)), make([]int, len(c))
 		for p := 0; p < len(c); p++ {
 			checkRender(rep, c, p)
+			fwd[p], bwd[p] = p, len(c)-1-p
+		}
+		if len(c) >= 2 { // one value walking through the file, forwards and backwards
+			checkRenderWalk(rep, c, fwd)
+			checkRenderWalk(rep, c, bwd)
 		}
 		rep.Case("render "+string(c), len(c) >= 2)
 		rep.Stat("render_exhaustive_files")
@@ -183,6 +220,11 @@ func runRender(rep *vh.Report) {
 		}
 		checkRender(rep, c, 0)
 		checkRender(rep, c, len(c)-1)
+		walk := make([]int, 4+r.Intn(12)) // one value jumping through the file
+		for k := range walk {
+			walk[k] = r.Intn(len(c))
+		}
+		checkRenderWalk(rep, c, walk)
 		rep.Case("render "+string(c), true)
 	}
 }
